@@ -286,6 +286,24 @@ fn gen_input(rng: &mut Rng, family: u64) -> (Vec<u8>, &'static str) {
             let d = *rng.pick(&[1usize, 2, 10, 50, 100, 150, 199, 200]);
             (nested(rng.usize(13), d).into_bytes(), "nesting<=200")
         }
+        10 => {
+            // large but legal inputs (up to ~60 KiB): huge comments, very long identifiers, long runs of
+            // whitespace / separators, many short lines — around a valid formula
+            let cfg = GenCfg::simple(&gen::PLAIN_NAMES[..4], 4);
+            let core = gen::render(&gen::gen_ast(rng, &cfg), rng, Style::Plain);
+            let big = 2_000 + rng.usize(56_000);
+            let text = match rng.below(5) {
+                0 => format!("\"{}\" {}", "c".repeat(big), core),
+                1 => format!("{} & {}", "x".repeat(big), core),
+                2 => format!("{}{}{}", " \n\t".repeat(big / 3), core, "\r\n".repeat(big / 4)),
+                3 => {
+                    let line = format!("\"l\" {}\n", rng.pick_str(&[";", ".", "~", "\"\""]));
+                    format!("{}{}", line.repeat(big / line.len()), core)
+                }
+                _ => format!("{} | [{}] >= 1", core, vec!["a"; 1].join(",")).replace('a', &"a".repeat(1 + big / 64)),
+            };
+            (text.into_bytes(), "large-input")
+        }
         _ => {
             let names: &[&str] = if rng.chance(1, 4) { &gen::FANCY_NAMES } else { &gen::PLAIN_NAMES };
             let mut cfg = GenCfg::simple(&names[..5], 5);
@@ -317,7 +335,7 @@ fn inproc_job(ctx: &Ctx, job: usize, iters: u64) -> Stats {
     let mut st = Stats::new();
     let mut rng = Rng::stream(ctx.seed, "C12.inproc", job as u64);
     for it in 0..iters {
-        let fam = it % 10;
+        let fam = if it % 97 == 0 { 10 } else { it % 10 };
         let (input, origin) = gen_input(&mut rng, fam);
         st.bump(&format!("family_{}", origin));
         if rng.chance(1, 4) {
@@ -336,7 +354,7 @@ fn inproc_job(ctx: &Ctx, job: usize, iters: u64) -> Stats {
 fn cli_case(ctx: &Ctx, st: &mut Stats, rng: &mut Rng, idx: u64) {
     let dir = ctx.fresh_dir(&format!("c12-{}", idx));
     let _ = std::fs::create_dir_all(&dir);
-    let fam = rng.below(10);
+    let fam = if rng.chance(1, 12) { 10 } else { rng.below(10) };
     let (input, origin) = gen_input(rng, fam);
     let mut args: Vec<String> = Vec::new();
     let mut stdin: Option<Vec<u8>> = None;
@@ -465,7 +483,7 @@ pub fn run(ctx: &Ctx) -> (Stats, Spec) {
     let parts = util::par_jobs(16, |job| cli_job(ctx, job, cli_iters));
     st.merge(crate::report::merge_all(parts));
     let spec = Spec {
-        rule: "byte strings from 10 families (random bytes; invalid UTF-8 inside formulas; token soups incl. braces/quotes; curated Unicode incl. non-ASCII digits; digit runs around 2^31/2^63/2^64 and up to 40 digits; mutated formulas; unbalanced brackets/quotes; empty input; every nestable construct nested up to exactly 200; valid formulas), a quarter of them combined with a hostile ordering; CLI: the same families through --evaluate / file / stdin / missing file x random subsets of -t -v -m -r -c -f -b -g -d -p -o with valid and invalid values. distinct = input bytes (+ ordering / options); non-trivial = the input got past tokenisation (reached the parser or beyond).".into(),
+        rule: "byte strings from 11 families (large inputs up to ~60 KiB: huge comments, very long identifiers, long whitespace runs, thousands of lines; random bytes; invalid UTF-8 inside formulas; token soups incl. braces/quotes; curated Unicode incl. non-ASCII digits; digit runs around 2^31/2^63/2^64 and up to 40 digits; mutated formulas; unbalanced brackets/quotes; empty input; every nestable construct nested up to exactly 200; valid formulas), a quarter of them combined with a hostile ordering; CLI: the same families through --evaluate / file / stdin / missing file x random subsets of -t -v -m -r -c -f -b -g -d -p -o with valid and invalid values. distinct = input bytes (+ ordering / options); non-trivial = the input got past tokenisation (reached the parser or beyond).".into(),
         assumptions: vec![
             "'nesting depth <= 200' is read as depth of the syntax tree (a right-nested chain of n binary operators has depth n)".into(),
             "formulas are evaluated only when the reference finds their fixed points convergent and their size bounded (<= 10 names, lists <= 8, <= 300 nodes); exceeding the logical step budget is an inconclusive case".into(),
